@@ -172,6 +172,13 @@ def run(qualnames, timeout_ms=20000, jobs=None, dump=False):
         ctx = mp.get_context("fork")
         with ctx.Pool(min(jobs, len(_ALL))) as pool:
             solved = pool.map(_solve_idx, [(i, timeout_ms) for i in range(len(_ALL))], chunksize=1)
+        # second chance for obligations that ran out of time while all cores were busy: fewer of them run at once now
+        retry = [i for (i, status, *_rest) in solved if status == "unknown"]
+        if retry and timeout_ms:
+            with ctx.Pool(min(jobs, len(retry))) as pool:
+                again = pool.map(_solve_idx, [(i, timeout_ms * 3) for i in retry], chunksize=1)
+            by = {r[0]: r for r in again}
+            solved = [by.get(r[0], r) if r[1] == "unknown" else r for r in solved]
         for (i, status, seconds, solver, reason, model) in solved:
             r, ob = index[i]
             rec = {"name": ob.name, "kind": ob.kind, "status": status, "seconds": round(seconds, 4),
